@@ -122,6 +122,16 @@ def storage_audit(P, R):
                                 bad.append('%s (branched on)' % ((t.blocks[b2].get('term') or {}).get('loc')))
                     R.ob('C07.WMC.1', not bad, s, 'rule functions only increment the per-rule hit counter of the rule entry they are given', key='rule-hit-counter', detail=bad or None)
                     continue
+                # release of an unreferenced service slot through a function that is handed the slot's address
+                if lv.get('k') == 'idx' and on_path(lv, 'vec') and name == 'iauth_xquery_services' and isinstance(op, str) and op.startswith('call:'):
+                    rels = [t for t in core.slot_release_sites(P) if t.fn in P.callees(s, True) and (t.ev.get('lhs') or {}).get('k') == 'un']
+                    other = [u for g_ in P.callees(s, True) for u in g_.stores() if u.ev['k'] == 'store' and (u.ev.get('lhs') or {}).get('k') == 'un' and is_var((u.ev['lhs'].get('e') or {}))
+                             and u.ev['lhs']['e']['name'] in g_.params and u not in rels]
+                    if rels and not other:
+                        okr = all(any(is_field(g[0], 'refs') and g[1] in ('==', '<=') and const_of(g[2]) == 0 for g in t.fn.guards(t.bid)) and
+                                  any(is_field(g[0], 'configured') and g[1] == '==' and const_of(g[2]) == 0 for g in t.fn.guards(t.bid)) for t in rels)
+                        R.ob('C07.WMC.1', okr, s, 'a service slot is released only when unreferenced and unconfigured (through %s)' % op[5:], key='slot-release')
+                        continue
                 # release of an unreferenced service slot
                 if lv.get('k') == 'idx' and on_path(lv, 'vec') and name == 'iauth_xquery_services' and op == '=' and const_of(rhs) == 0:
                     gs = f.guards(s.bid)
@@ -189,6 +199,11 @@ def slot_stability(P, R):
             if is_field(lhs, 'used') or (lhs.get('k') == 'mem' and lhs['field'] == 'used'):
                 n += 1
                 R.ob('C07.WMC.3', False, s, 'the service table\'s length is modified directly (%s): slot numbers held in client masks would move' % s.ev.get('op'), key='table-length')
+    # a slot emptied through a pointer to it (`*slot = NULL`, the pointer always being `&table.vec[i]`) is a release as well
+    for s in core.slot_release_sites(P):
+        if (s.ev.get('lhs') or {}).get('k') == 'un':
+            n += 1
+            R.ob('C07.WMC.3', True, s, 'service slot store %s = NULL through a pointer to the slot: a release' % sx(s.ev['lhs']), key='slot-store', nontrivial=False)
     for f in P.fns.values():
         for s in f.calls():
             c = s.ev.get('callee') or ''
@@ -207,9 +222,7 @@ def release_after_recheck(P, R, rule='C07.MPT.6'):
     say OK?" depend on whether some other client still holds the slot.  On no path of a reply handler is the re-check
     reached after a call that can release a slot."""
     unit = 'modules/iauth_xquery.c'
-    releasers = {f.key for f in P.unit_fns(unit) for s in f.stores()
-                 if s.ev['k'] == 'store' and (s.ev['lhs'] or {}).get('k') == 'idx' and on_path(s.ev['lhs'], 'vec') and root_var(s.ev['lhs']) is not None
-                 and root_var(s.ev['lhs'])['name'] == 'iauth_xquery_services' and const_of(s.ev.get('rhs')) == 0}
+    releasers = {s.fn.key for s in core.slot_release_sites(P, unit)}
     if not releasers:
         raise AnalysisBroken('no function releases a service slot')
     chk = P.need_fn('iauth_check_request')
